@@ -222,6 +222,16 @@ def checkRig (prop : String) (input : Json) (impl : Json) : PropOut := Id.run do
             | .ok j => j.compress
             | .error _ => bodyText.trimAscii.toString
           bodies := bodies ++ [(e, got.1, canonBody)]
+          -- a refusal that carries a payload of its own is answered with THAT payload (C03: "… or custom payload")
+          if kind.startsWith "deny-all-custom-" && (prop = "C03" || prop = "C12") then
+            match serve enums routes r with
+            | .refused asked =>
+              let scheme := (asked.getLast?.map (·.scheme)).getD ""
+              let wantBody := if kind = "deny-all-custom-string" then (Json.str s!"denied {scheme}").compress
+                else (Json.mkObj [("code", Json.str "denied"), ("scheme", Json.str scheme)]).compress
+              if got.1 = denyStatus && canonBody ≠ wantBody then
+                fails := fails ++ [s!"auth:custom-payload:{e}:{jstrD rq "method"} {jstrD rq "path"}:want={wantBody}:got={canonBody.take 120}"]
+            | _ => pure ()
           if got ≠ want then
             let cls := diffClass denyStatus want got
             -- C12-F1: percent-encoded PATH values reach the controller undecoded on fiber (always) and on
